@@ -9,6 +9,7 @@ Driver for C15. Trace lines of one case (produced by harness/cmd/verifharness/c1
   del <tx|notx> <id> <ok|err> [panic]
   ids <ordinals,…|-> <dups 0|1>
   flush <ok|timeout>
+  lose <leaf> <id> <ok|err>           a leaf store loses the part (fault below the stack; directed cases, judge only)
   panic <text>
 
 Contents: hex, "-" (empty), "@n:len" (the n-th content of the case, too long to print; the harness
@@ -127,6 +128,10 @@ def judgeCase (_k : Nat) (lines : List String) : Verdict := Id.run do
     return { violations := [("C15.case-panicked", p)], fingerprint := fpLines lines }
   if let some p := body.find? (·.startsWith "hang ") then
     return { violations := [("C15.operation-did-not-return", p)], fingerprint := fpLines lines }
+  -- `lose <leaf> <id> ok`: a fault injected below the stack (directed cases): the model has no such operation,
+  -- the judge applies unchanged (the part is still live), the tie is not attempted
+  let faulted := body.any (·.startsWith "lose ")
+  let body := body.filter fun l => !(l.startsWith "lose ")
   let some ls := body.mapM parseLine | return { diverge := ["unparsable-trace:op-line"] }
   let S := stack primsYes fx mws mbase
   let S2 := stack primsNo fx mws mbase
@@ -139,7 +144,7 @@ def judgeCase (_k : Nat) (lines : List String) : Verdict := Id.run do
   -- Three or more sequential tink layers below an erasure-coding layer: the lower two make every shard stream
   -- fail (known finding), and how far the third gets before it fails depends on tink's segmentation, which this
   -- abstract model does not have (Model/TinkSeek does). The judge still applies; the tie is not attempted.
-  let tieOff := hasEc && tinksBelowEc ≥ 3
+  let tieOff := (hasEc && tinksBelowEc ≥ 3) || faulted
   let mut s := S.init
   let mut s2 := S2.init
   let mut live : List (Nat × Bytes) := []       -- the judge's reference map
